@@ -1,0 +1,13 @@
+//go:build verif
+
+package schema
+
+// VerifSetMaxStaticSetMembers sets the maximum number of members of one
+// static-set schema blob (above which SetStaticSetMembers spreads the members
+// onto "mergeSets" sub-sets) and returns the previous value. Verification
+// harnesses use it to get merge sets without creating thousands of blobs.
+func VerifSetMaxStaticSetMembers(n int) (old int) {
+	old = maxStaticSetMembers
+	maxStaticSetMembers = n
+	return old
+}
